@@ -29,6 +29,7 @@ LEVEL = {
     "not_decided": "nothing in the statement beyond the trusted base (CPython await delegation passes "
                    "yielded values / sent replies unchanged; no dynamic code tricks).",
 }
+LEVEL["decided"] += ' (R17.7) the stack enters a synchronous context manager without awaiting anything: its enter result is data (enter_context table R14.4, shared).'
 LEVEL["decided"] += ' (R17.6) any_iter awaits every awaitable it is given and iterates only what is not awaitable (R19.2, shared).'
 
 BANNED = {
@@ -65,6 +66,12 @@ def run(ctx) -> None:
     from .common import Relabel
     ctx.rule("R17.6", "any_iter awaits every awaitable it is given and iterates only what is not awaitable (R19.2, shared)")
     c19.r19_2(Relabel(ctx, "R17.6"), project="awaits")
+    # a synchronous context manager is entered by calling its __enter__: what that returns is data for the caller (the
+    # ``as`` value), not an awaitable the library was asked to await - entering it suspends nowhere
+    from . import c14 as _c14
+    ctx.rule("R17.7", "entering a synchronous context manager through the stack awaits nothing: __enter__ is called directly and its "
+                      "result handed back as it is, also when that result happens to be awaitable (enter_context table R14.4, shared)")
+    _c14.r14_4(Relabel(ctx, "R17.7"))
     ctx.floor("modules", 11)
     ctx.floor("await_sites", 45)
     ctx.floor("async_for_sites", 15)
